@@ -246,7 +246,27 @@ func f0Expr(r *lib.RNG, vars []string, d int) string {
 
 func f0Stmts(r *lib.RNG, vars *[]string, n, depth int, ind string, sb *strings.Builder, next *int) {
 	for i := 0; i < n; i++ {
-		switch k := r.Intn(7); {
+		switch k := r.Intn(8); {
+		case k == 7 && depth > 0:
+			// loops without break/continue (fragment F1): bounded by a fresh counter
+			saved := len(*vars)
+			*next++
+			cnt := fmt.Sprintf("g%d", *next)
+			bound := lib.Pick(r, []string{"0", "1", "2", "3"})
+			switch r.Intn(3) {
+			case 0:
+				fmt.Fprintf(sb, "%sfor %s := 0; %s < %s; %s++ {\n", ind, cnt, cnt, bound, cnt)
+				f0Stmts(r, vars, r.Intn(3), depth-1, ind+"\t", sb, next)
+			case 1:
+				// the counter is not handed to the body: the loop is bounded by construction
+				fmt.Fprintf(sb, "%s%s := %s\n%sfor %s > 0 {\n%s\t%s--\n", ind, cnt, bound, ind, cnt, ind, cnt)
+				f0Stmts(r, vars, r.Intn(3), depth-1, ind+"\t", sb, next)
+			default:
+				fmt.Fprintf(sb, "%sfor %s := %s; %s; %s -= 1 {\n", ind, cnt, bound, cnt, cnt)
+				f0Stmts(r, vars, r.Intn(2), depth-1, ind+"\t", sb, next)
+			}
+			fmt.Fprintf(sb, "%s}\n", ind)
+			*vars = (*vars)[:saved]
 		case k <= 1 || len(*vars) == 0:
 			*next++
 			name := fmt.Sprintf("g%d", *next)
